@@ -3,6 +3,7 @@ package main
 
 import (
 	"flag"
+	"strings"
 
 	"verifharness/pk"
 	_ "verifharness/pk/b1"
@@ -16,6 +17,7 @@ func main() {
 	gen := flag.String("gen", "", "GenPkg.v")
 	tier := flag.String("tier", "quick", "")
 	prop := flag.String("prop", "C06", "C06|C07|C10")
+	groups := flag.String("groups", "", "comma separated generator groups (core,b1,b2); empty = all")
 	flag.Parse()
 	if *gen != "" {
 		pk.WriteGen(*gen)
@@ -32,8 +34,15 @@ func main() {
 	case "C07":
 		want[3] = true
 	case "C10":
-		want[4] = true
+		want[4], want[5] = true, true
 	}
 	g := &pk.Gen{Out: out, Rng: sx.NewRng(sx.EnvSeed()), Thorough: *tier == "thorough", Want: want}
-	pk.RunAll(g)
+	var sel map[string]bool
+	if *groups != "" {
+		sel = map[string]bool{}
+		for _, n := range strings.Split(*groups, ",") {
+			sel[n] = true
+		}
+	}
+	pk.RunAll(g, sel)
 }
